@@ -285,8 +285,117 @@ def run(tier, seed):
     k = seed % len(scns)
     for scn in scns[k:] + scns[:k]:
         engine_a.explore(ID, scn, tier, cov, found, deadline)
+    # netlists built by the readers, and their clones
+    t0 = time.time()
+    rcs = reader_cases()
+    nq = 0
+    for case, r in zip(rcs, core.pimap(engine_b._call, [(ID, c) for c in rcs], 1)):
+        nq += r["transitions"]
+        for sig, what in r.get("problems", ()):
+            f = found.get(sig)
+            if f is None:
+                found[sig] = {"count": 1, "what": what, "case": {"engine": "B", "worker": ID, "case": case}}
+            else:
+                f["count"] += 1
+    cov.add("transitions", nq)
+    cov.add("evaluations", nq)
+    cov.add("traces_validated_against_impl", nq)
+    cov["bounds_completed"]["reader-built"] = {"netlists": len(rcs), "lookups": nq, "wall_s": round(time.time() - t0, 2)}
     return cov, found
 
 
+# ------------------------------------------------------------------ netlists built by the readers (and their clones)
+def reader_sources():
+    from vlib import fdesigns
+    out = []
+    for b in fdesigns.BASES:
+        out.append(("edif", b, False))
+        out.append(("edif", b, True))
+    for alt in (False, True, "late"):
+        out.append(("verilog", "base", alt))
+    for b in ("B1", "B2", "B4", "B5", "B6", "B7"):
+        out.append(("eblif", b, None))
+    return out
+
+
+def reader_worker(case):
+    """exact lookups against a scan, from every parent of a reader-built netlist and of its clone, for every name and
+    identifier present (and their case variants); then one element of every scope is renamed and asked again."""
+    from vlib import fdesigns, edif_writer, verilog_writer as vw, eblif_writer as ew
+    from checks import c05, c06, c18
+    _, fmt, which, opt, cloned, order = case
+    core.reset_world()
+    core.set_order(order)
+    if fmt == "edif":
+        n = c05.parse_text(edif_writer.render(fdesigns.BASES[which](), rich=bool(opt)))
+    elif fmt == "verilog":
+        n = c06.parse_text(vw.render(c06.base_vad(), alt=opt))
+    else:
+        n = c18.parse_text(ew.render(c18.base(which)))
+    origin = "reader:%s" % fmt
+    if cloned:
+        n = n.clone()
+        origin += ":clone"
+    pol = n.get(".NS", "NONE")
+    probs = []
+    nq = 0
+
+    def judge(phase):
+        nonlocal nq
+        for parent, lst, getter in [(n, "libraries", "get_libraries")] + [(l, "definitions", "get_definitions") for l in n.libraries] + \
+                [(d, a, g) for l in n.libraries for d in l.definitions for a, g in (("ports", "get_ports"), ("cables", "get_cables"), ("children", "get_instances"))]:
+            kids = list(getattr(parent, lst))
+            for key in KEYS:
+                vals = set()
+                for c in kids:
+                    v = c.get(key)
+                    if isinstance(v, str):
+                        vals |= {v, v.swapcase()}
+                for v in sorted(vals):
+                    if any(ch in v for ch in "*?["):
+                        continue   # such a value is a wildcard pattern for the query functions (C13)
+                    want = [c for c in kids if key in c and fold(pol, key, c[key]) == fold(pol, key, v)]
+                    nq += 1
+                    try:
+                        got = list(getattr(parent, getter)(v, key=key))
+                    except Exception as e:
+                        probs.append(("lookup-raised:%s:%s:%s" % (lst, key, origin), "%s %r: %s" % (getter, v, type(e).__name__)))
+                        continue
+                    if sorted(map(id, got)) != sorted(map(id, want)):
+                        kindofmiss = "missing" if len(got) < len(want) else "extra"
+                        probs.append(("lookup-%s:%s:%s:%s:%s%s" % (kindofmiss, lst[0].upper(), key, origin, pol, phase),
+                                      "%s(%r, key=%r) returned %d element(s), a scan finds %d" % (getter, v, key, len(got), len(want))))
+                if key in Model(pol).checked_keys():
+                    seen = {}
+                    for c in kids:
+                        if isinstance(c.get(key), str):
+                            f = fold(pol, key, c[key])
+                            if f in seen:
+                                probs.append(("duplicate-%s:%s:%s" % (key, lst, origin), "%r twice" % (c[key],)))
+                            seen[f] = c
+    judge("")
+    # a rename in every scope (to a fresh name), then again
+    for l in n.libraries:
+        for d in l.definitions:
+            for grp in (d.ports, d.cables, d.children):
+                for c in list(grp)[:1]:
+                    if c.name is not None:
+                        c.name = c.name + "_renamed"
+            break
+    judge(":after-renames")
+    return {"key": core.digest(case), "nontrivial": True, "outcome": "ok", "problems": list(dict.fromkeys(probs)), "transitions": nq}
+
+
+from vlib import engine_b  # noqa: E402
+engine_b.WORKERS[ID] = reader_worker
+
+
+def reader_cases():
+    return [("reader", fmt, which, opt, cloned, order) for fmt, which, opt in reader_sources() for cloned in (False, True)
+            for order in core.ORDER_VARIANTS]
+
+
 def replay(case):
+    if case.get("engine") == "B":
+        return engine_b.replay_case(case)
     return engine_a.replay_case(case)
